@@ -126,7 +126,7 @@ impl<'a> Session<'a> {
         };
         let (fl, fr) = match ratio_fix16(&[], &[t, self.fs], 24) {
             Some(p) => p,
-            None => (0x7fff_fff0, 0), // converted time is zero/garbage: no finite ideal step
+            None => (1 << 30, 0), // converted time is zero/garbage: no finite ideal step
         };
         let extra = format!(",\"w\":\"{}\",\"arg\":{},\"ck\":{},\"fl\":{},\"fr\":{}", w, key(x), key(t), fl, fr);
         self.op("si", &extra, |a| {
